@@ -407,3 +407,33 @@ func (m farmMod) NonTrivial(x *X) bool {
 	s := m.scratch(x)
 	return s.nActive >= 1 && s.nFarmers >= 1 && s.zeroTally
 }
+
+// Tamper: damage the exported genesis (see main.go: Tamperer)
+func (m farmMod) Tamper(x *X, c *Chain, raw json.RawMessage, k int) (json.RawMessage, string, bool) {
+	var gs farmtypes.GenesisState
+	c.App.AppCodec().MustUnmarshalJSON(raw, &gs)
+	what := ""
+	switch k % 5 {
+	case 0:
+		what = "farmer-of-unknown-pool"
+		gs.FarmInfos = append(gs.FarmInfos, farmtypes.FarmInfo{PoolId: "farm-9", Address: c.Actors[0].String(), Locked: sdkmath.NewInt(5), RewardDebt: sdk.NewCoins()})
+	case 1:
+		if len(gs.FarmInfos) == 0 {
+			return nil, "", false
+		}
+		what = "locked-zero"
+		gs.FarmInfos[0].Locked = sdkmath.ZeroInt()
+	case 2:
+		if len(gs.Pools) == 0 {
+			return nil, "", false
+		}
+		what = "sequence-zero"
+		gs.Sequence = 0
+	case 3:
+		what = "tax-rate-two"
+		gs.Params.TaxRate = sdkmath.LegacyNewDec(2)
+	case 4:
+		what = "untouched"
+	}
+	return c.App.AppCodec().MustMarshalJSON(&gs), what, true
+}
